@@ -19,7 +19,8 @@
      volume attenuation + first envelope level (PSG).
   4. Extent (songs with at most one loop point per track, at bracket depth 0): without loop points the log ends in update F(longest track); when every channel
      loops with the same loop length L and M is the tick at which the last channel reaches its
-     loop point, the loop marker is in update F(M) and the log ends in update F(M + L).
+     loop point, the loop marker is in update F(M) and the log ends one loop length later: in the update that plays
+     tick τ + L for a tick τ ≥ M of update F(M).
   5. Observation: the log is cut into updates by its waits (every write must sit on a multiple of
      735 samples); FM key writes, and the register file at each key-on, are read by replaying
      the writes in order; for the PSG the register file at the end of the update is read.
@@ -104,6 +105,10 @@ inductive Ex
   transpose, volume setting and instrument in force -/
   | note (keyed : Bool) (pitch : Int) (coarse : Bool) (vol : Int) (ins : Int)
   | off
+  /-- the note that started last ends here (the next item of the track is read) -/
+  | next
+  /-- a slur command is read (the next note is not re-keyed) -/
+  | slur
   | tempo (delta : Nat)
   | segno
   | fin
@@ -136,11 +141,12 @@ def walk : List Item → Nat → St → List (Nat × Ex) → (Nat × St × List 
         else
           ({ s with slur := false, insPending := false },
            (if s.slur then [] else [(t, Ex.off)]) ++
-             [(t, .note (!s.slur) ((e.param + s.transpose) * 256 + s.detune) s.coarse s.vol s.ins)] ++ autoOff)
+             [(t, .note (!s.slur) ((e.param + s.transpose) * 256 + s.detune) s.coarse s.vol s.ins)] ++ autoOff
+             ++ [(t + on + off, .next)])
       else if e.type = ev_TIE then
         if s.insPending then (s, [(t, .stop)]) else (s, autoOff)
       else if e.type = ev_REST then (s, [(t, .off)] ++ autoOff)
-      else if e.type = ev_SLUR then ({ s with slur := true }, [])
+      else if e.type = ev_SLUR then ({ s with slur := true }, [(t, .slur)])
       else if e.type = ev_SEGNO then (s, [(t, .segno)])
       else if e.type = ev_TRANSPOSE then ({ s with transpose := e.param }, [])
       else if e.type = ev_TRANSPOSE_REL then ({ s with transpose := s.transpose + e.param }, [])
@@ -334,16 +340,35 @@ def isNote : Ex → Bool
   | _ => false
 
 /-- first update in which the channel is crowded or stopped -/
+def isSlur : Ex → Bool
+  | .slur => true
+  | _ => false
+
+def isNext : Ex → Bool
+  | .next => true
+  | _ => false
+
+def isOff : Ex → Bool
+  | .off => true
+  | .fin => true
+  | _ => false
+
+/-- some element satisfying `q` comes after some element satisfying `p` -/
+def followedBy (p q : Ex → Bool) : List Ex → Bool
+  | [] => false
+  | e :: r => (p e && r.any q) || followedBy p q r
+
 def cutFrame (placed : List (Nat × Ex)) : Option Nat :=
   let frames := (placed.map (·.1)).eraseDups
   frames.find? fun f =>
     let here := (placed.filter (·.1 = f)).map (·.2)
     here.any (fun e => match e with | .stop => true | _ => false) ∨ (here.filter isNote).length ≥ 2
+      ∨ followedBy isNote isSlur here
 
 def insOf (tab : InsTab) (id : Int) : Option InsDef := tab.lookup id
 
 /-- judge one FM channel -/
-def judgeFm (tab : InsTab) (ch : Nat) (placed : List (Nat × Ex)) (ws : List Wr) (lastFrame : Nat) : Option String :=
+def judgeFm (tab : InsTab) (ch : Nat) (placed : List (Nat × Ex)) (ws : List Wr) (lastFrame : Nat) (checkShort : Bool) : Option String :=
   let cut := (cutFrame placed).getD (lastFrame + 1)
   let keys := (fmKeys ws ch).filter (·.frame < cut)
   let placed := placed.filter (·.1 < cut)
@@ -355,7 +380,10 @@ def judgeFm (tab : InsTab) (ch : Nat) (placed : List (Nat × Ex)) (ws : List Wr)
     let expOff := here.any fun e => match e with | .off => true | .fin => true | _ => false
     let obsOn := obs.any (·.on)
     let obsOff := obs.any (!·.on)
-    if expOn ≠ obsOn then some s!"keyon-frame ch={ch} frame={f} expected={expOn} observed={obsOn}"
+    let short := followedBy (fun e => match e with | .note true .. => true | _ => false) isOff here
+    if checkShort ∧ short ∧ obsOn ∧ obsOff ∧ (obs.getLast?.map (·.on)) = some true then
+      some s!"short-note ch={ch} frame={f} the key-on of a note that ends inside the same update is written after its key-off"
+    else if expOn ≠ obsOn then some s!"keyon-frame ch={ch} frame={f} expected={expOn} observed={obsOn}"
     else if expOff ≠ obsOff then some s!"keyoff-frame ch={ch} frame={f} expected={expOff} observed={obsOff}"
     else
       match (here.filter isNote).getLast?, (obs.filter (·.on)).getLast? with
@@ -376,6 +404,8 @@ def judgeFm (tab : InsTab) (ch : Nat) (placed : List (Nat × Ex)) (ws : List Wr)
               match i? with
               | none => none
               | some i =>
+                -- a note that ends inside this update: later commands may already have been written
+                if followedBy isNote isNext here then none else
                 let want := [0, 1, 2, 3].map (fmExpectedTl i coarse v)
                 if k.tls ≠ want then some s!"attenuation ch={ch} frame={f} expected={want} observed={k.tls}"
                 else none
@@ -389,6 +419,7 @@ def judgePsg (tab : InsTab) (ch : Nat) (placed : List (Nat × Ex)) (ws : List Wr
   (placed.filter (·.1 < cut)).findSome? fun (f, e) =>
     match e with
     | .note keyed p coarse v ins =>
+      let short := followedBy isNote (fun e => isOff e || isNext e) ((placed.filter (·.1 = f)).map (·.2))
       let first : Option Nat := if ins = 0 then some 15 else
         match insOf tab ins with
         | some (.psg l) => some l
@@ -397,7 +428,7 @@ def judgePsg (tab : InsTab) (ch : Nat) (placed : List (Nat × Ex)) (ws : List Wr
       | some w, some l =>
         let r := psgAt snaps f
         if r.tone.getD id 0 ≠ w then some s!"pitch ch={ch} frame={f} expected={w} observed={r.tone.getD id 0}"
-        else if keyed ∧ r.att.getD id 0 ≠ psgExpectedAtt l coarse v then
+        else if keyed ∧ !short ∧ r.att.getD id 0 ≠ psgExpectedAtt l coarse v then
           some s!"attenuation ch={ch} frame={f} expected={psgExpectedAtt l coarse v} observed={r.att.getD id 0}"
         else none
       | _, _ => none
@@ -450,21 +481,30 @@ def judgeLog (song : Song) (tab : InsTab) (info : VgmSpec.Info) : Except String 
     else if loops.length = lines.length ∧ (loops.map (·.2)).eraseDups.length = 1 then
       let m := (loops.map (·.1)).foldl max 0
       let len := (loops.head?.map (·.2)).getD 0
-      match info.loopIdx, frameOf table m, frameOf table (m + len) with
-      | some k, some fm, some fe =>
+      match info.loopIdx, frameOf table m with
+      | some k, some fm =>
         let lf := timeAt info.cmds k
+        -- the ticks played in the update that holds the marker, one loop length later
+        let hi := table.getD (fm + 1) 0 - 1 + len
         if lf ≠ 735 * fm then .error s!"extent loop marker at sample {lf}, the last channel reaches its loop point in update {fm}"
-        else if fe ≠ lastFrame then .error s!"extent log ends in update {lastFrame}, one loop length after the marker is update {fe}"
-        else .ok "loop"
-      | none, _, _ => .error "extent loop marker missing"
-      | _, _, _ => .error s!"extent log ends in update {lastFrame}, before one loop length after the loop point"
+        else match frameOf table (m + len), frameOf table hi with
+          | some lo, some hiF =>
+            if lastFrame < lo ∨ lastFrame > hiF then
+              .error s!"extent log ends in update {lastFrame}, one loop length after the marker is update {lo}..{hiF}"
+            else .ok "loop"
+          | some lo, none =>   -- the upper end lies beyond the updates of the log
+            if lastFrame < lo then .error s!"extent log ends in update {lastFrame}, one loop length after the marker is update {lo}" else .ok "loop"
+          | _, _ => .error s!"extent log ends in update {lastFrame}, before one loop length after the loop point"
+      | none, _ => .error "extent loop marker missing"
+      | _, _ => .error s!"extent log ends in update {lastFrame}, before the last channel reaches its loop point"
     else .ok "skip"
   let mut notes := 0
+  -- first everything except the order of key-on and key-off inside one update, then that order
   for (c, l) in chans.zip lines do
     let placed := place table l.exs lastFrame
     notes := notes + (placed.filter fun p => isNote p.2).length
     if c.id < 6 then
-      match judgeFm tab c.id placed ws lastFrame with
+      match judgeFm tab c.id placed ws lastFrame false with
       | some w => return { fail := some w, notes := notes, extent := "" }
       | none => pure ()
     else if c.id < 9 then
@@ -473,6 +513,12 @@ def judgeLog (song : Song) (tab : InsTab) (info : VgmSpec.Info) : Except String 
       | none => pure ()
   match extent with
   | .error w => return { fail := some w, notes := notes, extent := "" }
-  | .ok x => return { fail := none, notes := notes, extent := x }
+  | .ok x =>
+    for (c, l) in chans.zip lines do
+      if c.id < 6 then
+        match judgeFm tab c.id (place table l.exs lastFrame) ws lastFrame true with
+        | some w => return { fail := some w, notes := notes, extent := "" }
+        | none => pure ()
+    return { fail := none, notes := notes, extent := x }
 
 end Ctrmml.Schedule
